@@ -127,3 +127,82 @@ func VX_C13_Redial(args []int) {
 	vxAssert(vxBlockedThreads() <= 2, "nothing but readers of live connections are waiting")
 	vxCover("c13.end")
 }
+
+func init() { vxRegister("VX_C13_LossWhileLaunching", VX_C13_LossWhileLaunching) }
+
+// VX_C13_LossWhileLaunching: on a redial-enabled client session the connection
+// is lost while a call has been written but its launch has not returned yet
+// (it is inside a post-write hook). The call in flight completes with a
+// connection error instead of hanging, whether or not the redial succeeds, and
+// a later call works on the reconnected session.
+// args: redialTimes, where(0 pre-write hook, 1 post-write hook)
+func VX_C13_LossWhileLaunching(args []int) {
+	var log []string
+	pl := newVxPlugin("h", &log)
+	p := NewPeer(PeerConfig{RedialTimes: int32(args[0])}, pl)
+	var conns []*vxConn
+	attempts := 0
+	VXSetDialHook(func(addr string) (net.Conn, error) {
+		attempts++
+		if attempts > args[0]+3 {
+			vxAssume(false)
+		}
+		if attempts > 1 && !vxBool("dialok") {
+			return nil, errors.New("connection refused")
+		}
+		c := newVxConn(fmt.Sprintf("cli:%d", attempts), addr)
+		conns = append(conns, c)
+		return c, nil
+	})
+	defer VXSetDialHook(nil)
+	s, st := p.Dial("srv:1")
+	vxAssume(st.OK())
+	s.SetID("user-1")
+	vxWaitIdle()
+	rel := make(chan struct{})
+	entered := make(chan struct{}, 1)
+	stage := "PreWriteCall"
+	if args[1] == 1 {
+		stage = "PostWriteCall"
+	}
+	armed := true
+	pl.onHook = func(st string) {
+		if st == stage && armed {
+			armed = false
+			entered <- struct{}{}
+			<-rel
+		}
+	}
+	fin := make(chan CallCmd, 1)
+	ch := make(chan CallCmd, 1)
+	go func() { fin <- s.AsyncCall("/a", []byte("1"), new([]byte), ch) }()
+	<-entered
+	conns[0].end() // unexpected loss while the launch is in progress
+	vxWaitIdle()
+	close(rel)
+	vxWaitIdle()
+	vxAssert(len(fin) == 1, "the launch returns")
+	if len(fin) == 1 {
+		cmd := <-fin
+		if args[1] == 1 {
+			vxAssert(vxDone(cmd), "a call in flight at the moment of loss completes instead of hanging")
+			if vxDone(cmd) {
+				vxAssert(!cmd.StatusOK() && IsConnError(cmd.Status()), "with a connection error")
+			}
+		} else {
+			// not yet written at the moment of loss: it fails, or goes out on the new connection
+			vxAssert(vxDone(cmd) || (len(conns) > 1 && conns[len(conns)-1].nWrites() == 1), "a call being launched at the moment of loss does not hang")
+		}
+	}
+	if got, ok := p.GetSession("user-1"); ok && got == s && s.Health() {
+		vxCover("c13.launching.redialed")
+		n := len(conns)
+		c2 := s.AsyncCall("/b", []byte("y"), new([]byte), make(chan CallCmd, 1))
+		w := conns[n-1].nWrites()
+		vxAssert(w >= 1, "later call goes out on the new connection")
+		conns[n-1].feed(vxFrame(TypeReply, c2.Output().Seq(), "", []byte("ok")))
+		vxWaitIdle()
+		vxAssert(vxDone(c2) && c2.StatusOK(), "later calls succeed once the server is reachable")
+	}
+	vxCover("c13.launching")
+}
